@@ -20,7 +20,7 @@ typedef struct fi_event {
     int rid;          /* resource id renamed by first-seen order in the window, -1 = pre-existing */
 } fi_event;
 
-#define FI_BT 10
+#define FI_BT 16
 typedef struct fi_ent {
     void *key;
     size_t size;
